@@ -275,7 +275,10 @@ func (c *Collector) flush() {
 				missing = append(missing, k)
 			}
 		}
-		if len(missing) > 0 {
+		if _, n := Shard(); len(missing) > 0 && n > 1 {
+			// sharded run: the driver decides on the union of all shards
+			c.extra["required_missing_in_shard"] = strings.Join(missing, ", ")
+		} else if len(missing) > 0 {
 			fmt.Printf("VERIF-INCONCLUSIVE: %s produced no case of class %s\n", strings.SplitN(c.t.Name(), "/", 2)[0], strings.Join(missing, ", "))
 			c.t.Errorf("inconclusive: required classes never generated: %v", missing)
 		}
@@ -294,7 +297,7 @@ func (c *Collector) flush() {
 		"property": c.prop, "test": c.name, "rule": c.rule, "evaluations": c.evals,
 		"fingerprints": fps, "fingerprint_overflow": c.overflow, "classes": c.classes,
 		"samples": c.samples, "extra": c.extra, "exhaustive": c.exhaust, "assumptions": c.assume,
-		"wall_s": time.Since(c.start).Seconds(), "failed": c.t.Failed(), "shard": shard,
+		"wall_s": time.Since(c.start).Seconds(), "failed": c.t.Failed(), "shard": shard, "required": c.required,
 	}
 	b, err := json.Marshal(part)
 	if err != nil {
